@@ -164,7 +164,7 @@ def write_replay(prop, item):
     with open(path, "w") as fh:
         json.dump(dict(property=prop, clause=f["clause"], backend=f["backend"], step=f["step"], detail=f["detail"],
                        expected=f.get("expected"), actual=f.get("actual"), tags_last=item["last"], tags_history=item["hist"],
-                       occurrences=item["count"], behaviour=f.get("beh")), fh, indent=1)
+                       occurrences=item["count"], behaviour=f.get("beh")), fh, indent=1, default=str)
     return path
 
 
